@@ -773,3 +773,113 @@ def r_band_order(cx):
               "two bands (latitude, longitude) of a node - the bands end up in the wrong order" % (
                   o[0], o[1], m, r, "" if bands in (None, m) else " in the branch for %d bands" % bands), cx.where(t["span"]))
     cx.count("R-BAND-ORDER", "swaps", n)
+
+
+@rule("R-GRID-MIN-SIZE", ["C08", "C15"])
+def r_grid_min_size(cx):
+    """Bilinear interpolation needs one cell: two rows and two columns. BaseGrid::plain refuses a grid only if it has
+    fewer - a 2 x 2, 2 x 5 or 4 x 2 grid (Gravsoft or NTv2 sub-grid) is a valid geometry and is accepted: the test on the row
+    and column counts is `< 2` (or `<= 1`)."""
+    name = "grid::BaseGrid::plain"
+    if not cx.f.has_fn(name):
+        cx.ob("R-GRID-MIN-SIZE", "anchor", False, "anchor-missing: %s" % name)
+        return
+    f = cx.f.fn(name)
+    n = 0
+    for bb in sorted(f.reachable()):
+        sw = f.term(bb)
+        if sw["k"] != "switch":
+            continue
+        c = mir.strip_refs(f.operand(sw["discr"], f.end_point(bb)))
+        if not (c[0] == "bin" and c[1] in ("Lt", "Le") and is_const_num(mir.strip_refs(c[3])) and isinstance(mir.strip_refs(c[3])[2], int)):
+            continue
+        l = mir.strip_refs(c[2])
+        # rows / cols: a float-to-usize cast of floor(.. + 1.5)
+        fl = []
+        mir.walk(l, lambda y: (fl.append(1) if y[0] == "call" and isinstance(y[1], str) and y[1].endswith("::floor") else None) or True)
+        if not (l[0] == "cast" and fl):
+            continue
+        n += 1
+        k = mir.strip_refs(c[3])[2]
+        ok = (c[1] == "Lt" and k <= 2) or (c[1] == "Le" and k <= 1)
+        cx.ob("R-GRID-MIN-SIZE", "plain/size-test%d" % (n - 1), ok,
+              "a grid with two rows / columns is accepted" if ok else
+              "BaseGrid::plain refuses grids with a row or column count %s %d: a grid of exactly two rows or columns - a valid "
+              "bilinear geometry - is rejected as malformed" % ("<" if c[1] == "Lt" else "<=", k), cx.where(sw["span"]))
+    cx.count("R-GRID-MIN-SIZE", "size_tests", n)
+
+
+@rule("R-HEADER-ORDER-AGREES", ["C15", "C08"])
+def r_header_order_agrees(cx):
+    """An NTv2 sub-grid header is handed to BaseGrid::plain as a flat array of seven numbers. Writer and reader agree on
+    its layout: position k of the array SubGridHeader::into_header builds holds the field that BaseGrid::plain reads from
+    position k (north, south, west, east boundary, latitude step, longitude step) - compared by field name (`nlat` /
+    `lat_n`, `dlat` / `dlat`, ...)."""
+    w, r = "grid::ntv2::subgrid::SubGridHeader::into_header", "grid::BaseGrid::plain"
+    if not (cx.f.has_fn(w) and cx.f.has_fn(r)):
+        cx.ob("R-HEADER-ORDER-AGREES", "anchor", False, "anchor-missing: %s / %s" % (w, r))
+        return
+    import elems as E
+    fw, fr = cx.f.fn(w), cx.f.fn(r)
+    adt = None
+    for aname, a in cx.f.lib["adts"].items():
+        if aname.endswith("subgrid::SubGridHeader"):
+            adt = a
+    rt = E.return_term(fw)
+    rt = mir.strip_refs(rt) if rt is not None else None
+    written = []
+    if adt and rt is not None and rt[0] == "agg" and rt[1] == "array":
+        fields = [x["name"] for x in adt["variants"][0]["fields"]]
+        for e in rt[2]:
+            e = mir.strip_refs(e)
+            while e[0] == "cast":
+                e = mir.strip_refs(e[2])
+            written.append(fields[e[2][1]] if e[0] == "proj" and isinstance(e[2], tuple) and e[2][0] == "f" and e[2][1] < len(fields) else None)
+    # the reader: debug names of the locals that receive header[k]
+    read = {}
+    for bb, i, st in fr.all_stmts():
+        if st["k"] != "assign" or st["place"]["p"]:
+            continue
+        v = mir.strip_refs(fr.rvalue(st["rv"], (bb, i)))
+        for _ in range(3):
+            if v[0] == "call" and isinstance(v[1], str) and v[1].rsplit("::", 1)[-1] in ("copysign", "abs") and v[2]:
+                v = mir.strip_refs(v[2][0])
+            elif v[0] == "cast":
+                v = mir.strip_refs(v[2])
+        if v[0] == "proj" and isinstance(v[2], tuple) and v[2][0] == "elem" and len(v[2]) == 2 and isinstance(v[2][1], int):
+            b = mir.strip_refs(v[1])
+            while b[0] == "proj" and b[2] == "deref":
+                b = mir.strip_refs(b[1])
+            if b == ("arg", 1):
+                nm = fr.lname(st["place"]["l"])
+                if nm and not str(nm).startswith("_"):
+                    read.setdefault(v[2][1], nm)
+
+    for bb, t in fr.calls():
+        if (fr.callee(t) or "").rsplit("::", 1)[-1] in ("copysign", "abs") and not t["dest"]["p"]:
+            v = mir.strip_refs(fr.arg_terms(bb)[0])
+            if v[0] == "proj" and isinstance(v[2], tuple) and v[2][0] == "elem" and len(v[2]) == 2 and isinstance(v[2][1], int):
+                b = mir.strip_refs(v[1])
+                while b[0] == "proj" and b[2] == "deref":
+                    b = mir.strip_refs(b[1])
+                nm = fr.lname(t["dest"]["l"])
+                if b == ("arg", 1) and nm and not str(nm).startswith("_"):
+                    read.setdefault(v[2][1], nm)
+
+    def canon(x):
+        return "".join(sorted(str(x).replace("_", "")))
+    n = 0
+    known = {canon(x) for x in written if x}
+    for k in sorted(read):
+        if k >= len(written) or written[k] is None:
+            continue
+        if canon(read[k]) not in known:
+            continue        # the reader's local is named otherwise (no shared naming to compare by): not judged
+        n += 1
+        ok = canon(written[k]) == canon(read[k])
+        cx.ob("R-HEADER-ORDER-AGREES", "position%d" % k, ok,
+              "position %d: written from `%s`, read as `%s`" % (k, written[k], read[k]) if ok else
+              "position %d of the sub-grid header array is written from the field `%s` but BaseGrid::plain reads it as `%s`: rows "
+              "and cell size are derived from the wrong increment, the file loads and addresses the wrong nodes" % (k, written[k], read[k]),
+              cx.where(fw.d["span"]))
+    cx.count("R-HEADER-ORDER-AGREES", "positions", n)
